@@ -156,6 +156,15 @@ def _bounds_from_facts(facts, x):
         if not isinstance(truth, bool):
             if e == x and truth[0] == "==":
                 return truth[1], truth[1]
+            if e == x and truth[0] in ("notin", "!="):
+                # a `match` on the value itself that has taken 0, 1, .. in earlier arms: the value is at least the first number not excluded
+                # (unsigned operands only, like the `!= 0` case below)
+                ex = set(truth[1]) if truth[0] == "notin" else {truth[1]}
+                k = 0
+                while k in ex:
+                    k += 1
+                if k:
+                    lo = k if lo is None else max(lo, k)
             continue
         sb = split_bin(e)
         if not sb:
